@@ -105,6 +105,9 @@ pub fn run(args: &Args, rep: &mut Report) {
 fn witnesses(rep: &mut Report, router: &hook::Router) {
     for (b, k) in [
         (&b"GET /abc\r\n\r\n"[..], Some("no-second-space")),
+        (&b"POST /\r\necp HTTP/1.1\r\nContent-Length: 3\r\n\r\nabc"[..], Some("ctl-in-target")),
+        (&b"GET /a\xc2%BC HTTP/1.1\r\nHost: t\r\n\r\n"[..], Some("non-utf8-path")),
+        (&b"POST /p HTTP/1.1\r\nContent-Length: 000000000003\r\n\r\nabc"[..], None),
         (&b"POST /a HTTP/1.1\r\nContent-Length: abc\r\n\r\nhello"[..], Some("cl-alpha")),
         (&b"POST /a HTTP/1.1\r\nContent-length: 5\r\n\r\nhello"[..], None),
         (&b"POST /a HTTP/1.1\r\nContent-Length: 5\r\n\r\n\0ello"[..], None),
@@ -114,6 +117,18 @@ fn witnesses(rep: &mut Report, router: &hook::Router) {
     ] {
         check(rep, u64::MAX, router, b, k, "witness");
     }
+}
+
+/// does the head (read leniently) announce, with a plain decimal Content-Length, more body bytes than follow the blank line?
+fn announced_body_outstanding(bytes: &[u8]) -> bool {
+    let Some(end) = bytes.windows(4).position(|w| w == b"\r\n\r\n") else { return false };
+    let have = bytes.len() - end - 4;
+    bytes[..end].split(|&b| b == b'\n').any(|line| {
+        let line = line.strip_suffix(b"\r").unwrap_or(line);
+        let Some(c) = line.iter().position(|&b| b == b':') else { return false };
+        line[..c].eq_ignore_ascii_case(b"content-length")
+            && std::str::from_utf8(&line[c + 1..]).ok().and_then(|v| v.trim().parse::<usize>().ok()).is_some_and(|n| n > have)
+    })
 }
 
 fn casings(name: &str) -> Vec<String> {
@@ -131,7 +146,7 @@ fn casings(name: &str) -> Vec<String> {
     v
 }
 
-fn check(rep: &mut Report, case: u64, router: &hook::Router, bytes: &[u8], mutation: Option<&str>, features: &str) {
+pub fn check(rep: &mut Report, case: u64, router: &hook::Router, bytes: &[u8], mutation: Option<&str>, features: &str) {
     rep.eval();
     let reference = parse_request(bytes);
     let in_subset = reference.is_ok();
@@ -256,12 +271,19 @@ fn check(rep: &mut Report, case: u64, router: &hook::Router, bytes: &[u8], mutat
             // parse is tolerated as long as nothing panics or hangs (checked above)
             let k = mutation.unwrap_or("?");
             let (ekind, why) = why.split_once('|').map(|(a, b)| (a.to_string(), b.to_string())).unwrap_or(("?".into(), why.clone()));
-            let lenient = matches!(ekind.as_str(), "header-name" | "value-ws" | "target-bytes" | "line-end");
+            // "escape": a `%` in the path that is not followed by two hex digits - the statement's list of malformed inputs does not
+            // name it and servers commonly pass it through literally
+            let lenient = matches!(ekind.as_str(), "header-name" | "value-ws" | "target-bytes" | "line-end" | "escape");
             let truncation = ekind == "truncated";
             if lenient {
                 rep.count(&format!("lenient-kind:{ekind}"));
                 if matches!(step, Step::Handled(_)) {
                     rep.count("lenient-parse-tolerated");
+                    return;
+                }
+                // a leniently read head may announce more body bytes than were delivered: waiting for them is legitimate
+                if matches!(step, Step::Stuck) && announced_body_outstanding(bytes) {
+                    rep.count("lenient-parse-waits-for-announced-body");
                     return;
                 }
             }
